@@ -1,13 +1,441 @@
-import GeffModel.TrackMate
-/-! # C16 — TrackMate conversion preserves spots, links, features and tracks (theorems: in progress) -/
-namespace GeffProps.C16
-open Geff.TrackMate
+import GeffProofs.TrackMate8
+import GeffProps.C14
+/-! # C16 — TrackMate conversion preserves spots, links, features and tracks
 
-/-- placeholder non-vacuity: the empty document converts to the empty graph -/
-theorem C16_empty_doc :
-    convert { space := none, time := none, sf := [], ef := [], tf := [], spots := [], tracks := [], filtered := none }
-      false false
-    = .ok { nodes := [], edges := [], nodeProps := [], edgeProps := [], spaceUnit := "pixel", timeUnit := "frame",
-            lineageDeclared := false, segmentation := false } := by decide
+Property theorems only.  Model: `Geff.TrackMate.convert` (`GeffModel/TrackMate.lean`) — the converter
+on abstract documents up to the property columns handed to `write_arrays`; tied to
+`geff.convert.from_trackmate_xml_to_geff` by the correspondence `harness/corr/C16.py` (rendered XML,
+real conversion, read-back).  lxml's streaming cursor logic is exercised there, **not** modelled:
+the property is decided for the graph / feature / filter logic (partial for XML parsing).
+
+`WF d` (GeffProofs/TrackMate2) = TrackMate's own invariants: every spot converts and has a unique ID,
+ROI on all spots or none, every track has a TRACK_ID, edges convert, join existing spots, are
+pairwise distinct, and a spot is touched by edges of one track id only. -/
+namespace GeffProps.C16
+open Geff.TrackMate Geff.Graph
+
+/-- all links of the document, each with the id of its track, in document order -/
+abbrev links (d : Doc) : List (Edge × Val) := tagged (attrsMd d) d.tracks
+
+/-- the spot ids in document order -/
+abbrev spotIds (d : Doc) : List Nat := d.spots.map spotId
+
+/-- the declarations are usable: `isint` and a known `dimension` on every feature, no identifier
+declared twice in a category, and `POSITION_X` declared when spots carry ROIs -/
+def MetaOk (d : Doc) : Prop :=
+  ∃ nmd emd tmd,
+    processFeatures (d.space.getD "pixel") (d.time.getD "frame") d.sf [] = .ok nmd ∧
+    processFeatures (d.space.getD "pixel") (d.time.getD "frame") d.ef [] = .ok emd ∧
+    processFeatures (d.space.getD "pixel") (d.time.getD "frame") d.tf [] = .ok tmd ∧
+    (d.spots.any (fun s => s.roi.isSome) = true → nmd.any (fun kv => kv.1 == "POSITION_X") = true)
+
+/-- **C16 (no exception)**: every well-formed document with usable declarations converts, for all
+four flag combinations. -/
+theorem C16_total (d : Doc) (h : WF d) (hm : MetaOk d) (ds dt : Bool) : ∃ out, convert d ds dt = .ok out := by
+  obtain ⟨nmd, emd, tmd, h1, h2, h3, h4⟩ := hm
+  unfold convert
+  rw [buildData_final d h]
+  simp only [h1, h2, h3]
+  split
+  · rename_i hc
+    simp only [Bool.and_eq_true, Bool.not_eq_eq_eq_not, Bool.not_true] at hc
+    rw [h4 hc.1] at hc
+    exact absurd hc.2 (by simp)
+  · exact ⟨_, rfl⟩
+
+/-- **C16 (graph)**: one node per kept spot, id = spot ID, in document order; one edge per link whose
+two endpoints are kept, source → target, no edge twice.  `keepSpot` is the filter of the two discard
+options (`keepSpot d false false n = true`). -/
+theorem C16_graph (d : Doc) (h : WF d) (ds dt : Bool) (out : Out) (hc : convert d ds dt = .ok out) :
+    out.nodes = (spotIds d).filter (keepSpot d ds dt) ∧
+    out.edges.Nodup ∧
+    ∀ u v, (u, v) ∈ out.edges ↔
+      (∃ x ∈ links d, x.1.s = u ∧ x.1.t = v) ∧ keepSpot d ds dt u = true ∧ keepSpot d ds dt v = true := by
+  obtain ⟨hn, he, _⟩ := convert_out d h ds dt out hc
+  obtain ⟨hkn, hcl⟩ := final_closed d h ds dt
+  refine ⟨by rw [hn, finalGraph_nodes], ?_, ?_⟩
+  · rw [he]; exact nxEdges_nodup _ hkn (final_edges_nodup d h ds dt)
+  · intro u v
+    rw [he]
+    simp only [List.mem_map, mem_nxEdges]
+    constructor
+    · rintro ⟨e, ⟨hee, _⟩, hk⟩
+      obtain ⟨x, hx, rfl, h1, h2⟩ := (mem_final_edges d h ds dt e).1 hee
+      simp only [edgeEntry, Prod.mk.injEq] at hk
+      exact ⟨⟨x, hx, hk.1, hk.2⟩, hk.1 ▸ h1, hk.2 ▸ h2⟩
+    · rintro ⟨⟨x, hx, rfl, rfl⟩, h1, h2⟩
+      have hmem := (mem_final_edges d h ds dt (edgeEntry (attrsMd d) x)).2 ⟨x, hx, rfl, h1, h2⟩
+      exact ⟨edgeEntry (attrsMd d) x, ⟨hmem, (hcl _ hmem).1⟩, rfl⟩
+
+/-- without discard options every spot and every link is there -/
+theorem C16_graph_all (d : Doc) (h : WF d) (out : Out) (hc : convert d false false = .ok out) :
+    out.nodes = spotIds d ∧ ∀ u v, (u, v) ∈ out.edges ↔ ∃ x ∈ links d, x.1.s = u ∧ x.1.t = v := by
+  obtain ⟨hn, _, he⟩ := C16_graph d h false false out hc
+  refine ⟨?_, fun u v => ?_⟩
+  · rw [hn]; apply List.filter_eq_self.2; intro n _; simp [keepSpot]
+  · rw [he]; simp [keepSpot]
+
+theorem lone_iff (d : Doc) (n : Nat) : lone d n = true ↔ ∀ x ∈ links d, x.1.s ≠ n ∧ x.1.t ≠ n := by
+  simp [lone, touches]
+
+/-- **C16 (discard_filtered_spots)** removes exactly the spots that belong to no track (no link of
+the document has them as an endpoint) — and no edge. -/
+theorem C16_discard_spots (d : Doc) (h : WF d) (out : Out) (hc : convert d true false = .ok out) :
+    out.nodes = (spotIds d).filter (fun n => !lone d n) ∧
+    ∀ u v, (u, v) ∈ out.edges ↔ ∃ x ∈ links d, x.1.s = u ∧ x.1.t = v := by
+  obtain ⟨hn, _, he⟩ := C16_graph d h true false out hc
+  refine ⟨?_, fun u v => ?_⟩
+  · rw [hn]; apply List.filter_congr; intro n _; simp [keepSpot]
+  rw [he]
+  constructor
+  · exact fun hh => hh.1
+  · rintro ⟨x, hx, rfl, rfl⟩
+    refine ⟨⟨x, hx, rfl, rfl⟩, ?_, ?_⟩ <;>
+    · simp only [keepSpot, Bool.true_and, Bool.false_and, Bool.not_false, Bool.and_true, Bool.not_eq_eq_eq_not,
+        Bool.not_true]
+      cases hl : lone d _
+      · rfl
+      · have := (lone_iff d _).1 hl x hx
+        simp at this
+
+/-- **C16 (discard_filtered_tracks)**: with a `FilteredTracks` section listing `keep`, exactly the
+nodes whose track id is listed survive (spots of no track go too); without the section nothing is
+removed (the reading fixed in DESIGN.md). -/
+theorem C16_discard_tracks (d : Doc) (h : WF d) (out : Out) (hc : convert d false true = .ok out) :
+    (d.filtered = none → out.nodes = spotIds d) ∧
+    (∀ keep, d.filtered = some keep → out.nodes = (spotIds d).filter (fun n => listed keep (trackIdOf d n))) := by
+  obtain ⟨hn, _, _⟩ := C16_graph d h false true out hc
+  constructor
+  · intro hf; rw [hn]; apply List.filter_eq_self.2; intro n _; simp [keepSpot, hf]
+  · intro keep hf; rw [hn]; apply List.filter_congr; intro n _; simp [keepSpot, hf]
+
+/-- the TRACK_ID of a node is the id of the track containing it: `trackIdOf d n = some t` iff some
+link of track `t` has `n` as an endpoint (tracks are vertex-disjoint in a well-formed document) -/
+theorem trackIdOf_iff (d : Doc) (h : WF d) (n : Nat) (tid : Val) :
+    trackIdOf d n = some tid ↔ ∃ x ∈ links d, touches x.1 n = true ∧ x.2 = tid := by
+  unfold trackIdOf
+  constructor
+  · intro hh
+    cases hf : (tagged (attrsMd d) d.tracks).find? (fun x => touches x.1 n) with
+    | none => rw [hf] at hh; cases hh
+    | some x =>
+      rw [hf] at hh
+      simp only [Option.map_some, Option.some.injEq] at hh
+      exact ⟨x, List.mem_of_find?_eq_some hf, by simpa using List.find?_some hf, hh⟩
+  · rintro ⟨x, hx, ht, rfl⟩
+    cases hf : (tagged (attrsMd d) d.tracks).find? (fun x => touches x.1 n) with
+    | none => have := List.find?_eq_none.1 hf x hx; simp [ht] at this
+    | some y =>
+      simp only [Option.map_some, Option.some.injEq]
+      exact h.edgesOk.consistent y (List.mem_of_find?_eq_some hf) x hx n (by simpa using List.find?_some hf) ht
+
+/-- the cell of node `n` under node property `k` (`none`: flagged missing / no such property) -/
+abbrev nodeCell (out : Out) (k : String) (n : Nat) : Option Val := cellOf out.nodes out.nodeProps k n
+
+/-- every kept spot's stored attributes are its own attribute dict + the TRACK_ID stamp -/
+theorem nodeCell_eq (d : Doc) (h : WF d) (ds dt : Bool) (out : Out) (hc : convert d ds dt = .ok out)
+    (s : Spot) (hs : s ∈ d.spots) (hk : keepSpot d ds dt (spotId s) = true) (k : String) :
+    nodeCell out k (spotId s) = aget? (spotAttrs (attrsMd d) s ++ stampOf (links d) (spotId s)) k := by
+  obtain ⟨hn, _, hp, _⟩ := convert_out d h ds dt out hc
+  have hmem : (spotId s, spotAttrs (attrsMd d) s ++ stampOf (links d) (spotId s)) ∈ (finalGraph d ds dt).nodes := by
+    simp only [finalGraph, restrictTo, List.mem_filter, fullGraph, stamped, baseNodes, List.map_map, List.mem_map,
+      Function.comp]
+    exact ⟨⟨s, hs, rfl⟩, hk⟩
+  have := cellOf_columns (finalGraph d ds dt).nodes out.nodeProps hp (final_closed d h ds dt).1 k _ hmem
+  simpa [nodeCell, hn] using this
+
+/-- **C16 (track id)**: the stored TRACK_ID of a kept spot is the id of the track containing it, and
+is flagged missing exactly for the spots of no track. -/
+theorem C16_track_id (d : Doc) (h : WF d) (ds dt : Bool) (out : Out) (hc : convert d ds dt = .ok out)
+    (s : Spot) (hs : s ∈ d.spots) (hk : keepSpot d ds dt (spotId s) = true) :
+    nodeCell out "TRACK_ID" (spotId s) = trackIdOf d (spotId s) ∧
+    (nodeCell out "TRACK_ID" (spotId s) = none ↔ lone d (spotId s) = true) := by
+  have h1 : nodeCell out "TRACK_ID" (spotId s) = trackIdOf d (spotId s) := by
+    rw [nodeCell_eq d h ds dt out hc s hs hk, aget_stamp _ _ _ (h.noTrackIdAttr s hs)]
+    rfl
+  refine ⟨h1, ?_⟩
+  rw [h1]
+  unfold trackIdOf lone
+  simp only [Option.map_eq_none_iff, List.find?_eq_none, List.all_eq_true, Bool.not_eq_eq_eq_not, Bool.not_true,
+    Bool.not_eq_true]
+
+/-- how a declared feature text is typed: `isint` ⇒ an integer, otherwise a float (of an integer or
+float text); a non-numeric text of a float feature stays a string -/
+def Typed (f : Feat) (t : Txt) (v : Val) : Prop :=
+  (f.isint = some true ∧ ∃ n txt, t = .int n txt ∧ v = .i n) ∨
+  (f.isint = some false ∧
+    ((∃ n txt, t = .int n txt ∧ v = .f (.ofInt n)) ∨ (∃ s, t = .flt s ∧ v = .f (.ofText s)) ∨
+     (∃ s, t = .str s ∧ v = .s s)))
+
+theorem aget_spotAttrs (md : List Feat) (s : Spot) (k : String) (hk : k ≠ "ROI_coords") :
+    aget? (spotAttrs md s) k = aget? (match convertAttributes md (spotTexts s) with
+      | .ok a => a
+      | .exc _ => []) k := by
+  unfold spotAttrs
+  simp only
+  cases s.roi with
+  | none => rfl
+  | some r => exact aget_aset_ne _ _ _ _ hk
+
+/-- **C16 (spot features)**: for a kept spot and a declared feature `k` (any category — the
+converter types attributes by the merged declarations), the value stored under the name `k` is the
+attribute's text typed by `isint` when the spot has the attribute, and is flagged missing when it
+has not.  (`hkeys`: XML attribute names are unique within an element.) -/
+theorem C16_features (d : Doc) (h : WF d) (ds dt : Bool) (out : Out) (hc : convert d ds dt = .ok out)
+    (s : Spot) (hs : s ∈ d.spots) (hkeep : keepSpot d ds dt (spotId s) = true)
+    (hkeys : ((spotTexts s).map (·.1)).Nodup)
+    (k : String) (f : Feat) (hf : mdLookup (attrsMd d) k = some f) (hk1 : k ≠ "TRACK_ID") (hk2 : k ≠ "ROI_coords") :
+    (∀ t, (k, t) ∈ spotTexts s → ∃ v, nodeCell out k (spotId s) = some v ∧ Typed f t v) ∧
+    (k ∉ (spotTexts s).map (·.1) → nodeCell out k (spotId s) = none) := by
+  obtain ⟨a, ha⟩ := (h.spotOk s hs).conv
+  have hcell : nodeCell out k (spotId s) = aget? a k := by
+    rw [nodeCell_eq d h ds dt out hc s hs hkeep]
+    have hst : k ∉ (stampOf (links d) (spotId s)).map (·.1) := by
+      unfold stampOf
+      cases (links d).find? (fun x => touches x.1 (spotId s)) with
+      | none => simp
+      | some x => simpa using hk1
+    have : aget? (spotAttrs (attrsMd d) s ++ stampOf (links d) (spotId s)) k = aget? (spotAttrs (attrsMd d) s) k := by
+      by_cases hm : k ∈ (spotAttrs (attrsMd d) s).map (·.1)
+      · exact aget_append_left _ _ _ hm
+      · rw [aget_append_right _ _ _ hm, aget_none _ _ hst, aget_none _ _ hm]
+    rw [this, aget_spotAttrs _ _ _ hk2, ha]
+  have hak := convertAttributes_keys ha
+  constructor
+  · intro t ht
+    obtain ⟨v, hv, hmem⟩ := convertAttributes_mem ha ht
+    exact ⟨v, by rw [hcell, aget_of_mem a k v (by rw [hak]; exact hkeys) hmem], convertOne_declared hf hv⟩
+  · intro hnot
+    rw [hcell, aget_none a k (by rw [hak]; exact hnot)]
+
+/-- **C16 (ROI)**: the polygon of a kept spot is stored point for point under `ROI_coords` -/
+theorem C16_roi (d : Doc) (h : WF d) (ds dt : Bool) (out : Out) (hc : convert d ds dt = .ok out)
+    (s : Spot) (hs : s ∈ d.spots) (hkeep : keepSpot d ds dt (spotId s) = true)
+    (r : Roi) (pts : List (List String)) (hr : s.roi = some r) (hp : r.pts = some pts) :
+    nodeCell out "ROI_coords" (spotId s) = some (.roi pts) := by
+  rw [nodeCell_eq d h ds dt out hc s hs hkeep]
+  have hsa : spotAttrs (attrsMd d) s = aset (match convertAttributes (attrsMd d) (spotTexts s) with
+      | .ok a => a
+      | .exc _ => []) "ROI_coords" (.roi pts) := by
+    unfold spotAttrs
+    simp only [hr, hp]
+    rfl
+  have hmem : "ROI_coords" ∈ (spotAttrs (attrsMd d) s).map (·.1) := by
+    rw [hsa, aset_keys]; exact Or.inl rfl
+  rw [aget_append_left _ _ _ hmem, hsa, aget_aset_self]
+
+/-- **C16 (units)**: the space / time units of the four axes are the model's (`pixel` / `frame` when
+the attribute is absent) -/
+theorem C16_units (d : Doc) (h : WF d) (ds dt : Bool) (out : Out) (hc : convert d ds dt = .ok out) :
+    out.spaceUnit = d.space.getD "pixel" ∧ out.timeUnit = d.time.getD "frame" := by
+  obtain ⟨_, _, _, _, h5, h6, _⟩ := convert_out d h ds dt out hc
+  exact ⟨h5, h6⟩
+
+
+/-! ## Lineage validity of the output -/
+
+/-- the nodes of the output that carry a TRACK_ID, each with it (the nodes whose TRACK_ID is flagged
+missing — spots of no track that were kept — belong to no lineage) -/
+def labelled (d : Doc) (ds dt : Bool) : List (Nat × Val) :=
+  ((spotIds d).filter (keepSpot d ds dt)).filterMap (fun n => (trackIdOf d n).map (fun t => (n, t)))
+
+/-- TrackMate's invariant: a track is connected — any two links with the same track id are joined by
+a path of links of that id -/
+def TracksConnected (d : Doc) : Prop :=
+  ∀ x ∈ links d, ∀ y ∈ links d, x.2 = y.2 →
+    Conn (((links d).filter (fun z => z.2 = x.2)).map (fun z => (z.1.s, z.1.t))) x.1.s y.1.s
+
+theorem mem_labelled (d : Doc) (ds dt : Bool) (u : Nat) (l : Val) :
+    (u, l) ∈ labelled d ds dt ↔ u ∈ spotIds d ∧ keepSpot d ds dt u = true ∧ trackIdOf d u = some l := by
+  unfold labelled
+  simp only [List.mem_filterMap, List.mem_filter, Option.map_eq_some_iff, Prod.mk.injEq]
+  constructor
+  · rintro ⟨n, ⟨hn, hk⟩, t, ht, rfl, rfl⟩; exact ⟨hn, hk, ht⟩
+  · rintro ⟨hn, hk, ht⟩; exact ⟨u, ⟨hn, hk⟩, l, ht, rfl, rfl⟩
+
+theorem touches_iff (e : Edge) (n : Nat) : touches e n = true ↔ e.s = n ∨ e.t = n := by
+  simp [touches]
+
+/-- a kept node of track `l` ⇒ every endpoint of every link of track `l` is kept -/
+theorem keep_whole_track (d : Doc) (h : WF d) (ds dt : Bool) (u : Nat) (l : Val)
+    (hk : keepSpot d ds dt u = true) (hl : trackIdOf d u = some l)
+    (x : Edge × Val) (hx : x ∈ links d) (hxl : x.2 = l) (n : Nat) (hn : touches x.1 n = true) :
+    keepSpot d ds dt n = true := by
+  have htn : trackIdOf d n = some l := (trackIdOf_iff d h n l).2 ⟨x, hx, hn, hxl⟩
+  have hlone : lone d n = false := by
+    cases hh : lone d n
+    · rfl
+    · simp only [lone, List.all_eq_true, Bool.not_eq_eq_eq_not, Bool.not_true] at hh
+      rw [hh x hx] at hn; cases hn
+  simp only [keepSpot, hlone, Bool.and_false, Bool.not_false, Bool.true_and, htn]
+  simp only [keepSpot, hl] at hk
+  revert hk
+  cases ds && lone d u <;> simp
+
+theorem C16_lineage_valid (d : Doc) (h : WF d) (hconn : TracksConnected d) (ds dt : Bool) (out : Out)
+    (hc : convert d ds dt = .ok out) :
+    GeffProps.C14.Spec (labelled d ds dt) out.edges := by
+  obtain ⟨_, _, hedges⟩ := C16_graph d h ds dt out hc
+  -- adjacent nodes of the output are endpoints of one link
+  have hadj : ∀ a b, Adj out.edges a b → ∃ x ∈ links d, touches x.1 a = true ∧ touches x.1 b = true ∧
+      keepSpot d ds dt a = true ∧ keepSpot d ds dt b = true := by
+    intro a b hab
+    rcases hab with hab | hab
+    · obtain ⟨⟨x, hx, rfl, rfl⟩, h1, h2⟩ := (hedges a b).1 hab
+      exact ⟨x, hx, by simp [touches], by simp [touches], h1, h2⟩
+    · obtain ⟨⟨x, hx, rfl, rfl⟩, h1, h2⟩ := (hedges b a).1 hab
+      exact ⟨x, hx, by simp [touches], by simp [touches], h2, h1⟩
+  have hstep : ∀ a b, Adj out.edges a b → trackIdOf d a = trackIdOf d b := by
+    intro a b hab
+    obtain ⟨x, hx, ha, hb, _, _⟩ := hadj a b hab
+    rw [(trackIdOf_iff d h a x.2).2 ⟨x, hx, ha, rfl⟩, (trackIdOf_iff d h b x.2).2 ⟨x, hx, hb, rfl⟩]
+  have hpath : ∀ a b, Conn out.edges a b → trackIdOf d a = trackIdOf d b := by
+    intro a b hab
+    induction hab with
+    | refl => rfl
+    | tail _ hbc ih => rw [ih]; exact hstep _ _ hbc
+  have hends : ∀ x ∈ links d, x.1.s ∈ spotIds d ∧ x.1.t ∈ spotIds d := by
+    intro x hx
+    have := h.edgesOk.ends x hx
+    simpa [baseNodes, List.map_map, Function.comp_def] using this
+  constructor
+  · intro u l v l' hu hv
+    obtain ⟨hus, huk, hul⟩ := (mem_labelled d ds dt u l).1 hu
+    obtain ⟨hvs, hvk, hvl⟩ := (mem_labelled d ds dt v l').1 hv
+    constructor
+    · rintro rfl
+      obtain ⟨x, hx, hxu, hxl⟩ := (trackIdOf_iff d h u l).1 hul
+      obtain ⟨y, hy, hyv, hyl⟩ := (trackIdOf_iff d h v l).1 hvl
+      -- every link of track l is an edge of the output
+      have hin : ∀ z ∈ links d, z.2 = l → (z.1.s, z.1.t) ∈ out.edges := by
+        intro z hz hzl
+        exact (hedges _ _).2 ⟨⟨z, hz, rfl, rfl⟩,
+          keep_whole_track d h ds dt u l huk hul z hz hzl _ (by simp [touches]),
+          keep_whole_track d h ds dt u l huk hul z hz hzl _ (by simp [touches])⟩
+      have hmono : ∀ a b, Conn (((links d).filter (fun z => z.2 = x.2)).map (fun z => (z.1.s, z.1.t))) a b →
+          Conn out.edges a b := by
+        intro a b hab
+        induction hab with
+        | refl => exact Relation.ReflTransGen.refl
+        | tail _ hpq ih =>
+          refine ih.tail ?_
+          rcases hpq with hpq | hpq
+          · obtain ⟨z, hz, hzk⟩ := List.mem_map.1 hpq
+            simp only [List.mem_filter, decide_eq_true_eq] at hz
+            cases hzk
+            exact Or.inl (hin z hz.1 (hz.2.trans hxl))
+          · obtain ⟨z, hz, hzk⟩ := List.mem_map.1 hpq
+            simp only [List.mem_filter, decide_eq_true_eq] at hz
+            cases hzk
+            exact Or.inr (hin z hz.1 (hz.2.trans hxl))
+      have hmid : Conn out.edges x.1.s y.1.s := hmono _ _ (hconn x hx y hy (hxl.trans hyl.symm))
+      have hux : Conn out.edges u x.1.s := by
+        rcases (touches_iff _ _).1 hxu with hh | hh
+        · rw [hh]
+        · rw [← hh]; exact Relation.ReflTransGen.single (Or.inr (hin x hx hxl))
+      have hyv' : Conn out.edges y.1.s v := by
+        rcases (touches_iff _ _).1 hyv with hh | hh
+        · rw [hh]
+        · rw [← hh]; exact Relation.ReflTransGen.single (Or.inl (hin y hy hyl))
+      exact (hux.trans hmid).trans hyv'
+    · intro huv
+      have := hpath u v huv
+      rw [hul, hvl] at this
+      exact Option.some.inj this
+  · intro u l x hu hux
+    obtain ⟨hus, huk, hul⟩ := (mem_labelled d ds dt u l).1 hu
+    have : x ∈ spotIds d ∧ keepSpot d ds dt x = true ∧ trackIdOf d x = some l := by
+      induction hux with
+      | refl => exact ⟨hus, huk, hul⟩
+      | tail _ hbc ih =>
+        obtain ⟨y, hy, ha, hb, _, hkb⟩ := hadj _ _ hbc
+        refine ⟨?_, hkb, ?_⟩
+        · rcases (touches_iff _ _).1 hb with hh | hh
+          · rw [← hh]; exact (hends y hy).1
+          · rw [← hh]; exact (hends y hy).2
+        · rw [← hstep _ _ hbc]; exact ih.2.2
+    exact List.mem_map.2 ⟨(x, l), (mem_labelled d ds dt x l).2 this, rfl⟩
+
+/-- the labelled node list has one entry per node (hypothesis of `C14_iff`), so by `C14_iff` the
+model of `validate_lineages` accepts the converter's output on the nodes whose TRACK_ID is present -/
+theorem labelled_unique (d : Doc) (ds dt : Bool) :
+    ∀ u l l', (u, l) ∈ labelled d ds dt → (u, l') ∈ labelled d ds dt → l = l' := by
+  intro u l l' h1 h2
+  have a := ((mem_labelled d ds dt u l).1 h1).2.2
+  have b := ((mem_labelled d ds dt u l').1 h2).2.2
+  rw [a] at b; exact Option.some.inj b
+
+/-- **C16 (lineage validation passes)**: `validate_lineages` (model of C14, proved there to decide the
+lineage definition) accepts the output restricted to the nodes whose TRACK_ID is present. -/
+theorem C16_lineage_validates (d : Doc) (h : WF d) (hconn : TracksConnected d) (ds dt : Bool) (out : Out)
+    (hc : convert d ds dt = .ok out) :
+    Geff.Lineage.validateLineages (labelled d ds dt) out.edges = true :=
+  (GeffProps.C14.C14_iff _ _ (labelled_unique d ds dt)).2 (C16_lineage_valid d h hconn ds dt out hc)
+
+
+/-! ## The executable checks used by the harness imply the hypotheses above -/
+
+theorem metaOkB_sound (d : Doc) (h : metaOkB d = true) : MetaOk d := by
+  unfold metaOkB at h
+  simp only at h
+  cases h1 : processFeatures (d.space.getD "pixel") (d.time.getD "frame") d.sf [] with
+  | exc e => rw [h1] at h; cases h
+  | ok nmd =>
+    cases h2 : processFeatures (d.space.getD "pixel") (d.time.getD "frame") d.ef [] with
+    | exc e => rw [h1, h2] at h; cases h
+    | ok emd =>
+      cases h3 : processFeatures (d.space.getD "pixel") (d.time.getD "frame") d.tf [] with
+      | exc e => rw [h1, h2, h3] at h; cases h
+      | ok tmd =>
+        rw [h1, h2, h3] at h
+        simp only [Bool.or_eq_true, Bool.not_eq_eq_eq_not, Bool.not_true] at h
+        refine ⟨nmd, emd, tmd, h1, h2, h3, ?_⟩
+        intro hs
+        rcases h with h | h
+        · rw [hs] at h; cases h
+        · exact h
+
+theorem tracksConnectedB_sound' (d : Doc) (h : tracksConnectedB d = true) : TracksConnected d :=
+  tracksConnectedB_sound d h
+
+/-- **C16, executable form** (what the harness relies on): a document that passes the three executable
+checks converts, and its output has every property stated above. -/
+theorem C16_checked (d : Doc) (h1 : wfB d = true) (h2 : metaOkB d = true) (h3 : tracksConnectedB d = true)
+    (ds dt : Bool) :
+    ∃ out, convert d ds dt = .ok out ∧
+      out.nodes = (spotIds d).filter (keepSpot d ds dt) ∧
+      Geff.Lineage.validateLineages (labelled d ds dt) out.edges = true := by
+  obtain ⟨out, hc⟩ := C16_total d (wfB_sound d h1) (metaOkB_sound d h2) ds dt
+  exact ⟨out, hc, (C16_graph d (wfB_sound d h1) ds dt out hc).1,
+    C16_lineage_validates d (wfB_sound d h1) (tracksConnectedB_sound d h3) ds dt out hc⟩
+
+/-! ## Non-vacuity: a concrete document with a split, a merge-free second track, a lone spot, an
+int and a float feature on subsets, ROIs, and a FilteredTracks list -/
+
+def F (n : String) (b : Bool) (dim : String) : Feat := { name := n, isint := some b, dim := some dim }
+
+def demoSpot (i : Nat) (frame : Int) (extra : List (String × Txt)) : Spot :=
+  { id := some i, name := some ("ID" ++ toString i),
+    feats := [("POSITION_X", .flt "1.5"), ("FRAME", .int frame (toString frame))] ++ extra,
+    roi := some { nPoints := 2, pts := some [["0.5", "1.5"], ["2.5", "-3.5"]] } }
+
+def demo : Doc :=
+  { space := some "micrometer", time := none,
+    sf := [F "POSITION_X" false "POSITION", F "FRAME" true "NONE", F "AREA" false "AREA", F "COUNT" true "NONE"],
+    ef := [F "SPOT_SOURCE_ID" true "NONE", F "SPOT_TARGET_ID" true "NONE", F "LINK_COST" false "COST"],
+    tf := [F "TRACK_ID" true "NONE"],
+    spots := [demoSpot 1 0 [("AREA", .flt "NaN")], demoSpot 2 1 [("COUNT", .int 7 "7")], demoSpot 3 1 [],
+              demoSpot 4 0 [], demoSpot 5 1 [], demoSpot 6 1 []],
+    tracks := [{ id := some (.int 0 "0"), feats := [],
+                 edges := [{ s := 1, t := 2, feats := [("LINK_COST", .flt "0.5")] }, { s := 1, t := 3, feats := [] }] },
+               { id := some (.int 4 "4"), feats := [], edges := [{ s := 4, t := 5, feats := [] }] }],
+    filtered := some [4] }
+
+example : wfB demo = true ∧ metaOkB demo = true ∧ tracksConnectedB demo = true := by decide
+example : (spotIds demo).filter (keepSpot demo false false) = [1, 2, 3, 4, 5, 6] := by decide
+example : (spotIds demo).filter (keepSpot demo true false) = [1, 2, 3, 4, 5] := by decide      -- lone spot 6 goes
+example : (spotIds demo).filter (keepSpot demo false true) = [4, 5] := by decide               -- only track 4 is listed
+example : trackIdOf demo 3 = some (.i 0) ∧ trackIdOf demo 6 = none := by decide
+example : isOk (convert demo false true) = true := by decide
 
 end GeffProps.C16
